@@ -63,6 +63,8 @@ func NewGwPeer(tr *Trace, id int, handler func(g *GwPeer, p *snref.Pkt, raw []by
 			tr.setFault(seq, "drop")
 		case memnet.Dup:
 			tr.setFault(seq, "dup")
+		case memnet.Fail:
+			tr.setFault(seq, "senderr")
 		}
 		return act
 	})
